@@ -369,6 +369,10 @@ func (r *Runtime) checkHostObjectPropertyDescr(name unistring.String, descr Prop
 func (o *objectGoReflect) defineOwnPropertyStr(name unistring.String, descr PropertyDescriptor, throw bool) bool {
 	if o.val.runtime.checkHostObjectPropertyDescr(name, descr, throw) {
 		n := name.String()
+		if descr.Value == nil && o._has(n) {
+			// no [[Value]] in the descriptor: the field keeps its value
+			return true
+		}
 		if has, ok := o._put(n, descr.Value, throw); !has {
 			o.val.runtime.typeErrorResult(throw, "Cannot define property '%s' on a host object", n)
 			return false
